@@ -12,6 +12,7 @@ from oracle import models as M
 
 ID = "C14"
 TITLE = "trace.posterior()/mode/support/allele frequencies/G array/incongruence are the functionals of the empirical distribution of the steps retained after exactly the requested burn-in, independent of within-genotype order"
+TECHNIQUE = 'symbolic probabilities over fixed genotype lists discharged by z3; plus solver-driven exhaustive enumeration of bounded traces (byte-keyed multiset code realises symbolic values) against an exact-rational oracle'
 ENCODED = ["mchap.assemble.classes.GenotypeMultiTrace.__post_init__", "mchap.assemble.classes.GenotypeMultiTrace.burn", "mchap.assemble.classes.GenotypeMultiTrace.posterior",
            "mchap.assemble.classes.GenotypeMultiTrace.replicate_incongruence", "mchap.assemble.classes.PosteriorGenotypeDistribution.mode_genotype_support",
            "mchap.assemble.classes.PosteriorGenotypeDistribution.allele_frequencies", "mchap.assemble.classes.GenotypeSupportDistribution.mode_genotype",
